@@ -384,12 +384,90 @@ fn ticker_scenarios(s: &mut Session, r: &mut Rng, n: usize) {
     }
 }
 
+// ------------------------------------------------------------------ witnesses of the no-panic theorems (props/C18.v)
+/// D31 (candidate): on a zero-width terminal the zombie scan of MultiState::draw overflows
+/// (`adjust += line_count`, src/multi.rs:324).  While the class is not registered in
+/// known_findings.json (or the defect fixed) the replay only records what it observed in the
+/// evidence counters; flip to report it as a failure of class
+/// `zero-width-zombie-scan-add-overflow`.
+const REPORT_ZERO_WIDTH_FINDING: bool = true;
+
+fn np_case(w: u16, h: u16, ops: Vec<(u64, Op)>) -> Case {
+    let bar = BarInit { len: Some(10), fin: Fin::AndLeave, tmpl: vec![TPart::Lit("x".into()), TPart::Pos], target: TInit::Hidden };
+    Case { w, h, fail_at: vec![], fail_from: None, mp: TInit::Term(None), bars: vec![bar.clone(), bar.clone(), bar.clone(), bar], ops }
+}
+
+/// Replays the witnesses of C18_no_panic_zero_width_refuted, C18_misuse_yields_site and
+/// C18_no_panic_nonvacuous (coq/model/SysPanic.v: np_ops, np_ops2) on the implementation: the
+/// model's [step_panics] verdict must be what the real code does.
+fn replay_nopanic_witnesses(s: &mut Session) {
+    use Op::*;
+    // np_ops ++ [tick d]
+    let mut ops: Vec<(u64, Op)> = vec![
+        (0, Insert(Loc::End, 0)), (0, Insert(Loc::End, 1)), (0, Insert(Loc::End, 2)), (0, Insert(Loc::End, 3)),
+        (1, Tick(0)), (1, Tick(1)), (1, Tick(2)), (1, Tick(3)),
+        (2, Finish(1, Fin::AndLeave)), (2, Finish(2, Fin::AndLeave)), (3, Drop(1)), (3, Drop(2)),
+        (4, Finish(0, Fin::AndLeave)), (5, Drop(0)),
+    ];
+    ops.push((6, Tick(3)));
+    for w in [0u16, 1] {
+        let case = np_case(w, 10, ops.clone());
+        let obs = run_case(&case);
+        let desc = format!("no-panic witness np_ops + tick (SysPanic.v) {}", describe(&case));
+        let p = obs.iter().enumerate().find_map(|(i, o)| o.panic.clone().map(|m| (i, m)));
+        match (w, p) {
+            (0, Some((14, m))) if m.contains("overflow") => {
+                s.count("witness:zero-width-zombie-scan-add-overflow:reproduced");
+                if REPORT_ZERO_WIDTH_FINDING {
+                    s.fail("zero-width-zombie-scan-add-overflow", format!("op 14 (tick of the last live member) panicked: {m}; model: step_panics = Some P_draw_adjust_add"), desc.clone());
+                }
+            }
+            (0, None) => s.count("witness:zero-width-zombie-scan-add-overflow:not-reproduced (fixed, or built without overflow checks)"),
+            (_, Some((i, m))) => s.fail("panic", format!("op {i}: {m} (model: no site reachable here)"), desc.clone()),
+            (_, None) => s.count("witness:np_ops-at-width-1:no-panic"),
+        }
+        s.oracle_only(desc, true);
+    }
+    // misuse: the reference bar (2) was never added; model: Some P_insert_after_index_unwrap /
+    // Some P_insert_before_index_unwrap (also when the bar to insert is a member already)
+    for (name, op) in [("insert_after", Insert(Loc::After(2), 1)), ("insert_before", Insert(Loc::Before(2), 0))] {
+        let case = np_case(5, 10, vec![(0, Insert(Loc::End, 0)), (1, op)]);
+        let obs = run_case(&case);
+        let desc = format!("misuse witness {name} (SysPanic.v misuse_site) {}", describe(&case));
+        match obs.get(1).and_then(|o| o.panic.clone()) {
+            Some(m) if m.contains("unwrap") && m.contains("None") => s.count(&format!("witness:misuse-{name}:panics-at-index-unwrap")),
+            Some(m) => s.fail("misuse-other-site", format!("{name} relative to a non-member panicked with: {m} (model: index().unwrap())"), desc.clone()),
+            None => s.fail("misuse-did-not-panic", format!("{name} relative to a non-member returned (model: panics at index().unwrap())"), desc.clone()),
+        }
+        s.oracle_only(desc, true);
+    }
+    // np_ops2 under np_fails2 on a 7x4 terminal: no site is reached (C18_no_panic_nonvacuous)
+    let ops2: Vec<(u64, Op)> = vec![
+        (0, Insert(Loc::End, 0)), (0, Insert(Loc::After(0), 1)), (0, Insert(Loc::Before(0), 2)), (0, Insert(Loc::FromBack(1), 3)),
+        (0, Insert(Loc::End, 1)), (1, SetAlign(true)), (1, Tick(0)), (1, Inc(1, 3)), (1, SetMsg(2, "m".into())), (2, Println(3, "h\ni".into())),
+        (3, Suspend(1, vec!["A".into()])), (4, MSuspend(vec!["B".into(), "C".into()])), (5, Remove(3)), (6, MPrintln("p".into())),
+        (7, Finish(0, Fin::AndLeave)), (7, Drop(0)), (8, Drop(2)), (9, MClear), (10, Tick(1)), (11, Finish(1, Fin::AndClear)), (12, Drop(1)),
+    ];
+    let mut case = np_case(7, 4, ops2);
+    case.fail_at = vec![7, 30, 31, 32, 33, 34, 35, 36, 37, 38, 39];
+    let obs = run_case(&case);
+    let desc = format!("no-panic witness np_ops2 / np_fails2 (SysPanic.v) {}", describe(&case));
+    if let Some((i, m)) = obs.iter().enumerate().find_map(|(i, o)| o.panic.clone().map(|m| (i, m))) {
+        s.fail("panic", format!("op {i}: {m} (model: run_panics = None)"), desc.clone());
+        s.oracle_only(desc, true);
+    } else {
+        s.count("witness:np_ops2:no-panic");
+        s.case(coq_case(&case, &obs), desc, true);
+    }
+}
+
 fn main() {
     let a = args();
     let mut s = Session::new(&a, "C18", COQ_HEADER, COQ_CASE_TY, COQ_CHECKER);
     s.shard_size = 150;
     s.rule = "histories (single bar on a terminal incl. println/suspend/set_tab_width/finish/drop; MultiProgress histories with add/insert/remove, println/suspend/clear of bars and of the MultiProgress, finishes and drops); for each history the fault-free run, then for EVERY k below its number of TermLike calls (sampled above the cap) the runs 'only call k fails' and 'all calls from k on fail' on fresh objects; oracle: no panic, getters equal the fault-free twin after every op, mp.println/clear Err iff one of their own calls failed, final round of calls on every bar and the MultiProgress works, drops do not panic; a sample of the faulty runs is compared with the model (sys_check with fail_at/fail_from); the injected io::ErrorKind rotates through Interrupted/WouldBlock/BrokenPipe/Other/TimedOut/UnexpectedEof (recorded in the case text); per history and kind one run in which EVERY flush fails (>= 3 consecutive failing flushes); 36 real-time steady-ticker scenarios (terminal fails for a window, then recovers: frames must arrive again and a later inc must be painted); non-trivial = at least one failure was injected; distinct = distinct case text; plus the static audit of unwrap/expect/panic sites".into();
     audit_panic_sites(&mut s);
+    replay_nopanic_witnesses(&mut s);
     let mut r = Rng::new(a.seed);
     ticker_scenarios(&mut s, &mut r.fork(), if a.thorough { 120 } else { 36 });
     let (n_hist, cap_k, corr_per_hist) = if a.thorough { (700, 400, 14) } else if a.extended { (500, 200, 10) } else { (110, 120, 12) };
